@@ -1,6 +1,6 @@
 (* C19 - the client's framing delivers each response intact however the transport splits it,
    and reports an error when the stream ends early.  Induction over chunk lists. *)
-From PK Require Import Base.Bytes Base.BytesProofs Client.Client Client.Framing.
+From PK Require Import Base.Bytes Base.BytesProofs Client.Client Client.Framing Client.EndToEnd.
 From Coq Require Import ZArith List Bool Lia ZifyBool.
 Import ListNotations.
 Open Scope Z_scope.
@@ -228,16 +228,9 @@ Section EndToEnd.
   (* ResponseMessage.read under the client's KMIP version (C01's subject; arbitrary here) *)
   Variable decode : bytes -> resp.
 
-  (* ProxyKmipClient.<o>: request sent, response read from the transport, decoded, interpreted *)
-  Definition client_call (o : op) (cs : list bytes) : outcome :=
-    match read cs with
-    | FOk f _ => interpret o (decode f)
-    | _ => RaiseOther
-    end.
-
   Theorem client_call_chunk_independent o cs1 cs2 :
     chunks_ok cs1 -> chunks_ok cs2 -> concat cs1 = concat cs2 -> bytes_ok (concat cs1) = true ->
-    client_call o cs1 = client_call o cs2.
+    client_call decode o cs1 = client_call decode o cs2.
   Proof.
     intros H1 H2 E B. pose proof (client_framing cs1 cs2 H1 H2 E B) as F.
     unfold client_call. destruct (read cs1), (read cs2); simpl in F; try discriminate; auto.
@@ -246,7 +239,7 @@ Section EndToEnd.
 
   Theorem client_call_complete o cs f more :
     chunks_ok cs -> bytes_ok (f ++ more) = true -> is_frame f -> concat cs = f ++ more ->
-    client_call o cs = interpret o (decode f).
+    client_call decode o cs = interpret o (decode f).
   Proof.
     intros H1 B F E. destruct (frame_delivered_intact cs f more H1 B F E) as (rest & R & _).
     unfold client_call. rewrite R. reflexivity.
@@ -254,7 +247,7 @@ Section EndToEnd.
 
   Theorem client_call_truncated_raises o cs f k :
     chunks_ok cs -> bytes_ok f = true -> is_frame f -> (k < length f)%nat -> concat cs = firstn k f ->
-    client_call o cs = RaiseOther.
+    client_call decode o cs = RaiseOther.
   Proof.
     intros H1 B F K E. unfold client_call.
     destruct (early_end_raises cs f k H1 B F K E) as [R | (e & r & R)]; rewrite R; reflexivity.
